@@ -557,11 +557,14 @@ Qed.
 Definition abs (th : thread) (hi : nat) : nat * bool :=
   (h_gid (t_h th hi), match h_pool (t_h th hi) with None => true | Some _ => false end).
 
+Definition gprog (th : thread) (seed : nat) : Prop :=
+  exists r, t_prog th = OGarble seed :: r \/ exists site, t_prog th = OGarbleFail seed site :: r.
+
 Definition pc_ok (st : state) (th : thread) : Prop :=
   match t_pc th with
   | Idle => True
-  | GCas seed _ | GGet seed _ | GFill seed _ _ => exists r, t_prog th = OGarble seed :: r
-  | GLoad seed => (exists r, t_prog th = OGarble seed :: r) /\ s_ptr st <> None
+  | GCas seed _ | GGet seed _ | GFill seed _ _ => gprog th seed
+  | GLoad seed => gprog th seed /\ s_ptr st <> None
   | RClear hi => exists r, t_prog th = ORelease hi :: r /\ hi < t_nh th /\ h_pool (t_h th hi) <> None
   | EEnd hi _ => exists r, t_prog th = OEval hi :: r
   end.
@@ -574,8 +577,9 @@ Definition LinInv (progs : list (list op)) (st : state) : Prop :=
 
 Lemma solo_ext prog : forall nh f g, (forall hi, f hi = g hi) -> solo prog nh f = solo prog nh g.
 Proof.
-  induction prog as [|[seed|hi|hi|x] r IH]; intros nh f g H; simpl; auto.
+  induction prog as [|[seed|seed site|hi|hi|x] r IH]; intros nh f g H; simpl; auto.
   - f_equal. apply IH. intros hi. unfold upd. destruct (hi =? nh); auto.
+  - f_equal. now apply IH.
   - f_equal. rewrite (H hi). destruct ((hi <? nh) && negb (snd (g hi))); apply IH; auto.
     intros hi'. unfold upd. destruct (hi' =? hi); auto.
   - rewrite (H hi). f_equal. now apply IH.
@@ -612,9 +616,11 @@ Proof.
   unfold step in H. set (th := s_thr st t) in *.
   destruct (t_pc th) eqn:Hpc.
   - (* Idle *)
-    destruct (t_prog th) as [|[seed|hi|hi|x] rest] eqn:Hprog; [discriminate| | | |].
+    destruct (t_prog th) as [|[seed|seed site|hi|hi|x] rest] eqn:Hprog; [discriminate| | | | |].
     + destruct (s_ptr st) as [p|]; injection H as <-; simpl; rewrite upd_same;
-        (split; [unfold pc_ok; simpl; eauto|unfold lin_ok; simpl; rewrite Hprog; exact LIN]).
+        (split; [unfold pc_ok, gprog; simpl; eauto|unfold lin_ok; simpl; rewrite Hprog; exact LIN]).
+    + destruct (s_ptr st) as [p|]; injection H as <-; simpl; rewrite upd_same;
+        (split; [unfold pc_ok, gprog; simpl; eauto|unfold lin_ok; simpl; rewrite Hprog; exact LIN]).
     + simpl in LIN. destruct (h_pool (t_h th hi)) as [p|] eqn:Hp.
       * destruct (hi <? t_nh th) eqn:Hhi; injection H as <-; simpl; rewrite upd_same.
         -- split.
@@ -638,23 +644,24 @@ Proof.
       unfold lin_ok, th_ret. cbn [t_res t_prog t_nh t_h]. rewrite Hprog. cbn [tl].
       simpl in LIN. eapply lin_push; [exact LIN|]. intros; reflexivity.
   - (* CAS *)
-    destruct PC as (r & Hprog).
     destruct (s_ptr st) as [q|] eqn:Hptr; injection H as <-; simpl; rewrite upd_same.
-    + split; [|exact LIN]. unfold pc_ok. simpl. split; [eauto|]. rewrite Hptr. discriminate.
-    + split; [|exact LIN]. unfold pc_ok. simpl. eauto.
+    + split; [|exact LIN]. unfold pc_ok. simpl. split; [exact PC|]. rewrite Hptr. discriminate.
+    + split; [|exact LIN]. unfold pc_ok. simpl. exact PC.
   - (* Load *)
-    destruct PC as ((r & Hprog) & Hnn).
+    destruct PC as (PC & Hnn).
     destruct (s_ptr st) as [q|] eqn:Hptr; [|contradiction]. injection H as <-. simpl. rewrite upd_same.
-    split; [|exact LIN]. unfold pc_ok. simpl. eauto.
+    split; [|exact LIN]. unfold pc_ok. simpl. exact PC.
   - (* Get *)
-    destruct PC as (r & Hprog).
     destruct (ch <? length (s_pool st p)); injection H as <-; simpl; rewrite upd_same;
-      (split; [unfold pc_ok; simpl; eauto|exact LIN]).
+      (split; [unfold pc_ok; simpl; exact PC|exact LIN]).
   - (* Fill *)
-    destruct PC as (r & Hprog). injection H as <-. simpl. rewrite upd_same. split; [exact I|].
-    unfold lin_ok. cbn [t_res t_prog t_nh t_h]. rewrite Hprog in *. cbn [tl]. simpl in LIN.
-    eapply lin_push; [exact LIN|]. intros hi. unfold abs. cbn [t_h]. unfold upd.
-    destruct (hi =? t_nh th); reflexivity.
+    destruct PC as (r & [Hprog|(site & Hprog)]); rewrite Hprog in H; injection H as <-; simpl; rewrite upd_same;
+      (split; [exact I|]).
+    + unfold lin_ok. cbn [t_res t_prog t_nh t_h]. rewrite Hprog in *. cbn [tl]. simpl in LIN.
+      eapply lin_push; [exact LIN|]. intros hi. unfold abs. cbn [t_h]. unfold upd.
+      destruct (hi =? t_nh th); reflexivity.
+    + unfold lin_ok, th_ret. cbn [t_res t_prog t_nh t_h]. rewrite Hprog in *. cbn [tl]. simpl in LIN.
+      eapply lin_push; [exact LIN|]. intros; reflexivity.
   - (* Release: clear *)
     destruct PC as (r & Hprog & Hhi & Hp). injection H as <-. simpl. rewrite upd_same. split; [exact I|].
     unfold lin_ok. cbn [t_res t_prog t_nh t_h]. rewrite Hprog in *. cbn [tl]. simpl in LIN.
@@ -704,3 +711,34 @@ Proof.
   intros th. destruct (run_lininv progs sched t) as (_ & L). fold th in L. unfold lin_ok in L.
   split; [exact L|]. intros E. rewrite E in L. simpl in L. now rewrite app_nil_r in L.
 Qed.
+
+(* ------------------------------------------------------------------ *)
+(** * Regression record: the double Put on a failing Garble *)
+
+(* In the variant [s_dput = true] (the error returns inside the two loops of
+   Garble put the scratch back twice: once explicitly, once through a deferred
+   cleanup) the invariant breaks with ONE failed Garble followed by two
+   overlapping garblings: both live handles are backed by the same scratch,
+   the first handle's buffers hold the second one's garbling, the pool held
+   the scratch twice. *)
+Definition dput_progs : list (list op) := [[OGarbleFail 1 2; OGarble 2]; [OGarble 3]].
+Definition dput_sched : list sitem :=
+  [SThread 0 0; SThread 0 0; SThread 0 0; SThread 0 0;      (* Garble fails at the first input label *)
+   SThread 0 0; SThread 0 0; SThread 0 0;                    (* goroutine 0 garbles: gets the scratch *)
+   SThread 1 0; SThread 1 0; SThread 1 0].                   (* goroutine 1 garbles: gets it, too *)
+
+Lemma double_put_refuted :
+  let st := run_from (init_cfg true dput_progs) dput_sched in
+  live (s_thr st 0) 0 = true /\ live (s_thr st 1) 0 = true /\
+  h_scr (t_h (s_thr st 0) 0) = h_scr (t_h (s_thr st 1) 0) /\
+  s_contents st (h_scr (t_h (s_thr st 0) 0)) <> h_gid (t_h (s_thr st 0) 0) /\
+  exclusive 2 st = false /\
+  (* right after the failed call the pool holds the scratch twice *)
+  s_pool (run_from (init_cfg true dput_progs) (firstn 4 dput_sched)) 0 = [0; 0].
+Proof. vm_compute. repeat split; try reflexivity. discriminate. Qed.
+
+(* the same history on the model of the code as it is: exclusive *)
+Example single_put_ok :
+  let st := run_from (init dput_progs) dput_sched in
+  exclusive 2 st = true /\ h_scr (t_h (s_thr st 0) 0) <> h_scr (t_h (s_thr st 1) 0).
+Proof. vm_compute. split; [reflexivity|discriminate]. Qed.
